@@ -121,7 +121,9 @@ ProcCQC(rs, store, qc) ==
 (* process_timeout_qc (mod.rs:393-414). *)
 ProcTQC(rs, store, t) ==
     LET a == ProcCQC(rs, store, t.hq)
-    IN IF a.rs.htq = NoTQ \/ a.rs.htq.view < t.view
+    IN IF Weaken = "tqc_same_view_skips_cqc" /\ ~(rs.htq = NoTQ \/ rs.htq.view < t.view)
+       THEN [rs |-> rs, store |-> store]       \* "a certificate we already know": its nested commit certificate is not looked at
+       ELSE IF a.rs.htq = NoTQ \/ a.rs.htq.view < t.view
        THEN [rs |-> [a.rs EXCEPT !.htq = t], store |-> a.store]
        ELSE a
 
